@@ -213,6 +213,18 @@ def plain(tree):
     return {k: v.decode('utf-8', 'backslashreplace') for k, v in tree.items()}
 
 
+def same_tree(got, want, mode):
+    """files on disk vs files computed in memory.  In rename mode, WHICH of two colliding files gets the numbered name
+    depends on the order in which the linter's workers return their violations (not fixed, neither in the model: the
+    correspondence is existential over that order): there the trees are compared up to a `_<n>` suffix of the name"""
+    if got == want:
+        return True
+    if mode != 'rename':
+        return False
+    key = lambda t: sorted((re.sub(r'_\d+(\.rego)$', r'\1', p_), b) for p_, b in t.items())
+    return key(got) == key(want)
+
+
 def binary_disk_verdicts(c, o, report, cli):
     """c: the harness' record of the same file set (in memory), o: what the command did on disk"""
     cli['run'] += o['runs']
@@ -230,7 +242,7 @@ def binary_disk_verdicts(c, o, report, cli):
         report('binary-fix-fails-on-lintable-input', c, None, dict(extra, what='regal fix --force exits %d on a file set that lint accepts and '
                'that Fixer.Fix fixes without error or conflict; files left on disk: %s' % (o['fix_exit'], sorted(o['after_fix'][0]))))
         return
-    if o['after_fix'][0] != files_plain_bytes(c['final']):
+    if not same_tree(o['after_fix'][0], files_plain_bytes(c['final']), c['mode']):
         cli['diffs'] += 1
         report('binary-differs-from-fixer', c, None, dict(extra, what='files on disk after regal fix --force differ from what Fixer.Fix computed in memory'))
     if o.get('lint_violations') is None or o['lint_exit'] not in (0, 3):
@@ -282,7 +294,7 @@ def binary_runs(ctx, corpus_sets, cli, report):
                 q = os.path.join(d, f)
                 got['/ws/' + os.path.relpath(q, root)] = open(q, 'rb').read()
         want = files if c['conflicts'] else files_plain_bytes(c['final'])
-        if got != want:
+        if not same_tree(got, want, c['mode']):
             cli['diffs'] += 1
             report('binary-differs-from-fixer', c, None, {
                 'what': 'files on disk after regal fix --force differ from what Fixer.Fix computed in memory',
